@@ -211,3 +211,6 @@ M('c11-client-accepts-unprotected', 'C11', 'R5', RQ,
             return False
 """, """        return mediatypes.quality(media_type, accept) != 0.0
 """, also=('C09',))
+
+M('c11-cache-old-stdlib-parser', 'C11', 'R6', 'falcon/util/mediatypes.py',
+  "def _parse_header_old_stdlib(line: str)", "@functools.lru_cache()\ndef _parse_header_old_stdlib(line: str)")
